@@ -349,8 +349,41 @@ def ob_rounding(chk, P, name):
         ob.absorb(ex)
 
 
+def validate_translator(chk, P):
+    """concrete operand pairs (those of the repo's unit tests in math.rs plus boundary values) through the interpreter and natively"""
+    ex = Executor(P, ALL_MODELS_())
+    cases = [('plus', 2, 1), ('plus', 21.5, 2.25), ('minus', 2, 1), ('minus', 21.5, 1.25), ('times', 2, 3), ('times', 8.5, 0.5), ('divided_by', 4, 2), ('divided_by', 5, 2),
+             ('divided_by', 5.0, 2), ('divided_by', 7, -2), ('modulo', 3, 2), ('modulo', -7, 3), ('modulo', 3.0, 2.0), ('at_least', 4, 5), ('at_most', 4, 5), ('at_least', 4.5, 5),
+             ('plus', 9223372036854775807, 1), ('times', 4611686018427387904, 2), ('divided_by', -9223372036854775808, -1), ('modulo', -9223372036854775808, -1), ('plus', '3', 4), ('plus', '3.5', 4)]
+    for name, av, bv in cases:
+        filt, argsty, _, _ = BIN[name]
+        fn = P.find_method(filt, 'evaluate', 'Filter', 'lib')
+        def mkval(v):
+            if isinstance(v, int): return value_scalar(scalar_int(v))
+            if isinstance(v, float): return value_scalar(scalar_float(Float(z3.FPVal(v, F64))))
+            return value_scalar(scalar_str(v))
+        st = State()
+        outs = list(ex.run(fn, [st.ref(Adt(filt, None, [Adt(argsty, None, [expr_stub(mkval(bv))])])), st.ref(mkval(av)), st.ref(Opaque(('RUNTIME',)))], st))
+        got = None
+        if len(outs) == 1 and outs[0][1] == 'ret':
+            r = result_of(outs[0][2])
+            if r[0] == 'int': got = ('num', float(z3.simplify(r[1]).as_signed_long()))
+            elif r[0] == 'float':
+                fv = z3.simplify(r[1])
+                got = ('num', fp_to_float(fv)) if z3.is_fp_value(fv) else ('float-term', str(fv))
+            else: got = (r[0],)
+        if got and got[0] == 'float-term':
+            continue     # fmod is uninterpreted: nothing concrete to compare
+        def view(res):
+            if res.get('outcome') == 'err': return ('err',)
+            if res.get('outcome') != 'ok': return (res.get('outcome'),)
+            return ('num', float(res['output']))
+        chk.validate(f'{av!r} | {name}: {bv!r}', got, {'kind': 'template', 'template': '{{ a | ' + name + ': b }}', 'globals': {'a': av, 'b': bv}}, view)
+
+
 def run(chk):
     P = chk.program(('core', 'lib'))
+    validate_translator(chk, P)
     for name in BIN:
         ob_binary(chk, P, name)
     ob_abs(chk, P)
